@@ -81,7 +81,7 @@ func describeCall(c *fakeCAS, mat *materialized, k int) string {
 
 func TestC17MalformedAndFaults(t *testing.T) {
 	rec := simkit.NewRecorder(t, "C17", "inputroot-malformed-faults",
-		"rapid scenario = DAG + 0-2 malformations (invalid names \"\", \".\", \"..\", \"a/b\", \"/\", NUL; duplicate names across files/directories/symlinks; digests that are non-hex, short, upper case, empty, nil or negative-sized; unparseable, missing or corrupted Directory blobs; missing or corrupted file blobs; file objects that lost their tail on a medium served through a non-validating ReaderAt buffer) + a generated step script (same step set as inputroot-model plus MergeDirectoryContents retries and a repair step that stores missing/corrupted blobs correctly). The script is first run fault-free counting CAS reads, then once per (read index x {UNAVAILABLE, corrupted bytes, truncated bytes, NOT_FOUND, and for file reads: object short by half served unvalidated}) in a fresh world; read buffers are pre-filled so that stale bytes are visible: fault enumeration, exhaustive per scenario. Oracle: an answer that needs an inaccessible directory/file is an error (EIO status / error), never any tree; everything else equals the model; a step during which a fault fired reports an error, changes nothing, and gives the model's answer when retried; the visited part is compared after every step and the whole tree at the end. One evaluation = one (scenario, fault) run. NON-TRIVIAL: the fault hit the lazy fetch of a non-root directory or a file read and the retry succeeded, or (fault-free run) a malformed non-root directory was hit and reported as an error; distinct by script hash")
+		"rapid scenario = DAG + 0-2 malformations (invalid names \"\", \".\", \"..\", \"a/b\", \"/\", NUL; duplicate names across files/directories/symlinks; digests that are non-hex, short, upper case, empty, nil or negative-sized; unparseable, missing or corrupted Directory blobs; missing or corrupted file blobs; file objects that lost their tail on a medium served through a non-validating ReaderAt buffer) + a generated step script (same step set as inputroot-model plus MergeDirectoryContents retries and a repair step that stores missing/corrupted blobs correctly). The script is first run fault-free counting CAS reads, then once per (read index x {UNAVAILABLE, corrupted bytes, truncated bytes, NOT_FOUND, and for file reads: object short by half served unvalidated}) in a fresh world; read buffers are pre-filled so that stale bytes are visible: fault enumeration, exhaustive per scenario. Oracle: an answer that needs an inaccessible directory/file is an error (EIO status / error), never any tree; everything else equals the model; a step during which a fault fired reports an error, changes nothing, and gives the model's answer when retried; the visited part is compared after every step and the whole tree at the end; with the NFS handle allocator, after removing the whole tree the handle pool tracks no leaf any more (leaves created by a directory load that then failed have been unlinked, as fetchContentsUnwrapped documents; not checked after a MergeDirectoryContents that collided with existing names). One evaluation = one (scenario, fault) run. NON-TRIVIAL: the fault hit the lazy fetch of a non-root directory or a file read and the retry succeeded, or (fault-free run) a malformed non-root directory was hit and reported as an error; distinct by script hash")
 	rapid.Check(t, func(rt *rapid.T) {
 		sc := &scenario{cfg: drawWorldConfig(rt), spec: drawDAG(rt)}
 		sc.malforms = drawMalformations(rt, sc.spec)
@@ -166,10 +166,14 @@ func TestC17MalformedAndFaults(t *testing.T) {
 			if r.mergeCollisions > 0 {
 				rec.Label("diagnostic:skipped_after_merge_onto_existing_names")
 			} else if msg := r.handleLeakDiagnostic(); msg != "" {
-				rec.Label("diagnostic:leaf_handles_not_returned")
-				rec.Note(msg + "; script=" + clip(jsonOf(where)))
+				// fetchContentsUnwrapped documents "Ensure that leaves
+				// are properly unlinked if this method fails" (and
+				// getContents does the same when it cannot attach
+				// what was fetched): a leaf whose link count was not
+				// returned stays in the handle pool for good.
+				rt.Fatalf("leaves were created and not released: %s\nscript=%s", msg, jsonOf(where))
 			} else if r.w.nfs != nil {
-				rec.Label("diagnostic:handle_pool_empty_after_teardown")
+				rec.Label("handle_pool_empty_after_teardown")
 			}
 		}
 		diag(r, []any{header, steps})
